@@ -34,7 +34,10 @@ def deep_value(rnd, depth=0):
 
 
 def gen_expr(rnd, names):
-    e = c12.gen(rnd, rnd.choice([2, 3, 4, 5]), ops=["add", "mul", "sub", "add", "mul"])
+    if rnd.random() < 0.35:
+        e = c12.gen_nested_ac(rnd)
+    else:
+        e = c12.gen(rnd, rnd.choice([2, 3, 4, 5]), ops=["add", "mul", "sub", "add", "mul"])
 
     def ren(x):
         if x[0] == "var":
@@ -117,8 +120,9 @@ def shuffle_keys(v, rnd):
     return v
 
 
-def rewrite_expressions(nodes, rnd):
-    """Re-order / re-associate + and * operands inside sweep expressions."""
+def rewrite_expressions(nodes, rnd, inner_only=False):
+    """Re-order / re-associate + and * operands inside sweep expressions (`inner_only`: keep the outermost chain's
+    order as written and re-order inside its operands only)."""
     import ast as pyast
     nodes = copy.deepcopy(nodes)
     for n in nodes:
@@ -128,7 +132,7 @@ def rewrite_expressions(nodes, rnd):
         for p, src in list(sw["parameters"].items()):
             e = parse_expr(src)
             if e is not None:
-                sw["parameters"][p] = c12.src(c12.ac_rewrite(e, rnd))
+                sw["parameters"][p] = c12.src(c12.inner_rewrite(e, rnd) if inner_only else c12.ac_rewrite(e, rnd))
     return nodes
 
 
